@@ -281,3 +281,19 @@ pub fn note_alloc(op: &str, input: usize, biggest: usize) {
         None => g.push((kind, input, biggest)),
     }
 }
+
+/// Logging on, output discarded: every `log` / `tracing` call site of the selium crates is enabled at the most verbose
+/// level, so whatever a log statement computes (its field expressions, its `Display` / `Debug` arguments) is computed
+/// in every scenario, as it is in a deployment that runs with debug logging. The text goes to a sink.
+pub fn enable_logging() {
+    use tracing_subscriber::prelude::*;
+    let lvl = tracing::Level::TRACE;
+    let targets = tracing_subscriber::filter::Targets::new()
+        .with_target("selium", lvl)
+        .with_target("selium_server", lvl)
+        .with_target("selium_protocol", lvl)
+        .with_target("selium_std", lvl)
+        .with_target("selium_tools", lvl);
+    let layer = tracing_subscriber::fmt::layer().with_writer(std::io::sink).with_ansi(false).with_filter(targets);
+    let _ = tracing_subscriber::registry().with(layer).try_init();
+}
